@@ -69,4 +69,21 @@ theorem applyUpdate_multi_two (f : Val → Val → Except Err Val) (n : Tree) (u
     rw [applyMulti]; simp
   simp only [hmulti, applyList, h1, h2, hs]
 
+/-- a dictionary port's variable `x` arriving at a node of the partially built inverse that
+already holds a value for `x`: both are kept under `_multi_update` -/
+theorem invTuple_collide (outer q node : Path) (x : String) (u1 u2 : Val)
+    (hq : normalize (outer ++ q) = node) (hu1 : u1.isDict = false) :
+    invTuple outer q (.dict [(x, u2)]) (nest node (.dict [(x, u1)])) =
+      .ok (nest node (.dict [(x, .dict [("_multi_update", .list [u1, u2])])])) := by
+  unfold invTuple
+  simp only [hq]
+  exact updateIn_nest _ node _ _ (mergeMulti_collide x u1 u2 hu1)
+
+theorem invTuple_first (outer q node : Path) (x : String) (u : Val)
+    (hq : normalize (outer ++ q) = node) :
+    invTuple outer q (.dict [(x, u)]) (.dict []) = .ok (nest node (.dict [(x, u)])) := by
+  unfold invTuple
+  simp only [hq]
+  exact updateIn_empty _ node _ (mergeMultiInto_single x u)
+
 end Viv
